@@ -110,13 +110,12 @@ def print_assumptions(pid, rundir):
 
 
 def coq_str(b):
-    """bytes -> Coq term of type [list N] via the hex transport (long strings
-    are split so that no single literal is huge)."""
-    h = b.hex()
-    if len(h) <= 8000:
-        return '(unhex "%s")' % h
-    parts = [h[i:i + 8000] for i in range(0, len(h), 8000)]
-    return "(" + " ++ ".join('unhex "%s"' % p for p in parts) + ")%list"
+    """bytes -> Coq term of type [list N]: 7 bytes per primitive-int literal
+    (Judge/Pack.v); short strings use the readable hex form."""
+    if len(b) <= 12:
+        return '(unhex "%s")' % b.hex()
+    lits = ";".join("0x" + b[i:i + 7][::-1].hex() for i in range(0, len(b), 7))
+    return "(up %d [%s]%%uint63)" % (len(b), lits)
 
 
 def coq_eval(rundir, name, imports, casetype, terms, judge, shard=400, timeout=900):
@@ -126,12 +125,20 @@ def coq_eval(rundir, name, imports, casetype, terms, judge, shard=400, timeout=9
     flags, and the per-case tag list (list of ints, one per case).
     [judge] is the name of a function  list casetype -> list (N*N*N)  whose
     first component is the index inside the shard; [judge]_tags gives tags."""
-    shards = [terms[i:i + shard] for i in range(0, len(terms), shard)] or [[]]
+    # size-balanced shards (largest first into the lightest bin); idxs maps back
+    nb = max(1, min(len(terms), max(NCPU, (len(terms) + shard - 1) // shard)))
+    bins = [[0, []] for _ in range(nb)]
+    for gi in sorted(range(len(terms)), key=lambda i: -len(terms[i])):
+        b = min(bins, key=lambda x: x[0])
+        b[0] += len(terms[gi]) + 2000
+        b[1].append(gi)
+    idxs = [sorted(b[1]) for b in bins if b[1]] or [[]]
+    shards = [[terms[i] for i in ix] for ix in idxs]
     files = []
     for k, sh_terms in enumerate(shards):
         v = os.path.join(rundir, "%s_%d.v" % (name, k))
         with open(v, "w") as f:
-            f.write(imports + "\nOpen Scope string_scope.\n")
+            f.write(imports + "\nFrom CRS Require Import Judge.Pack.\nOpen Scope string_scope.\n")
             f.write("Definition cases : list %s := [\n" % casetype)
             f.write(";\n".join(sh_terms))
             f.write("\n].\n")
@@ -144,25 +151,24 @@ def coq_eval(rundir, name, imports, casetype, terms, judge, shard=400, timeout=9
 
     with ThreadPoolExecutor(max_workers=NCPU) as ex:
         outs = list(ex.map(one, files))
-    flagged, tags, errors = [], [], []
+    flagged, tags, errors = [], [None] * len(terms), []
     for k, (rc, o, e) in enumerate(outs):
         if rc:
             errors.append("shard %d: rc=%d %s" % (k, rc, (o + e)[-1500:]))
-            tags += [None] * len(shards[k])
             continue
         mR = re.search(r"R\s*=\s*(.*?)\s*:\s*list", o, re.S)
         mT = re.search(r"T\s*=\s*(.*?)\s*:\s*list", o, re.S)
         if not mR or not mT:
             errors.append("shard %d: unparsable output %s" % (k, o[-500:]))
-            tags += [None] * len(shards[k])
             continue
         for a, b, c in re.findall(r"\(\s*(\d+)(?:%\w+)?\s*,\s*(\d+)(?:%\w+)?\s*,\s*(\d+)(?:%\w+)?\s*\)", mR.group(1)):
-            flagged.append((k * shard + int(a), int(b), int(c)))
+            flagged.append((idxs[k][int(a)], int(b), int(c)))
         t = [int(x) for x in re.findall(r"(\d+)(?:%\w+)?", mT.group(1))]
         if len(t) != len(shards[k]):
             errors.append("shard %d: %d tags for %d cases" % (k, len(t), len(shards[k])))
-            t = [None] * len(shards[k])
-        tags += t
+            continue
+        for j, x in zip(idxs[k], t):
+            tags[j] = x
     return flagged, tags, errors, files
 
 
@@ -171,6 +177,7 @@ def coq_eval(rundir, name, imports, casetype, terms, judge, shard=400, timeout=9
 def build_drv(rundir, go="go", tags="verif"):
     """Build harness/drv inside /repo's module through an overlay."""
     src = os.path.join(VERIF, "harness", "drv")
+    rundir = os.path.abspath(rundir)
     repl = {}
     for f in sorted(os.listdir(src)):
         if f.endswith(".go") and not f.endswith("_test.go"):
